@@ -238,3 +238,25 @@ def tail_shape_programs():
             # a loop body ending in such a chain, inside a function and at top level
             out.append("functie f(n) { stel i = 0; stel s = 0; zolang i < 3 { i += 1; s = s + i; als i < 2 { %s } anders { %s } }; [i, s] }\n[f(0), f(1), f(7)]" % (a, b))
     return out
+
+
+def failure_then_declaration_sessions():
+    """retained sessions in which a line is REJECTED BY THE COMPILER at a chosen depth (top level, in a block, in a loop, in a
+    function body, in a function body inside a loop, in nested functions) and later lines declare variables and functions,
+    use block-local declarations under pending operands, call, and misuse `antwoord`/`stop` at top level: whatever the failed
+    compilation left behind in the retained compiler (an open function context, an open scope, a loop context, a stale
+    constant) must not change how later lines are compiled — their bytecode must be checkable top-level code"""
+    fails = ["zz", "stel p = zz", "{ stel t = 1; zz }", "zolang ja { zz }", "functie f(a) { zz }", "functie f(a) { stel l = 1; { stel m = 2; zz } }",
+             "zolang ja { functie f() { stel q = 1; zz } }", "functie f() { functie g() { zz } }", "functie f(a, b) { als a { zz } }",
+             "functie f() { stop }", "functie f() { zolang ja { functie g() { volgende } } }", "10 + 20 + zz", "stel y = 5; stop",
+             "functie f(a) { a + 7 + zz }", "[1, 2, functie() { zz }]", "f(functie(x) { x + zz })"]
+    afters = [["stel t = 5; t", "t + 1"], ["1 + als ja { stel t = 5; t }"], ["functie k(a) { stel l = a; l + 1 }; k(2)"], ["antwoord 1", "7"],
+              ["stop", "8"], ["stel a = 100; a + 7 + 8 + 10"], ["stel z = 5; z", "stel w = 10 + 20; w"], ["{ stel b = 1; { stel c = 2; b + c } }"],
+              ["stel n = 0; zolang n < 3 { n += 1; stel d = n * 2; }; n"], ["functie r(n) { als n < 1 { antwoord 0 }; n + r(n - 1) }; r(4)"]]
+    out = []
+    for i, f in enumerate(fails):
+        for j, a in enumerate(afters):
+            out.append(["stel g0 = 1", f] + a + ["g0"])
+            if (i + j) % 4 == 0:
+                out.append([f, fails[(i + 3) % len(fails)]] + a + afters[(j + 1) % len(afters)])
+    return out
